@@ -189,6 +189,7 @@ def child_parses(spec, jobs):
             rec = peers.make_recovery(job["recovery"])
             events = {}  # error index -> [(pre position, post position, ok)] per head
             holder = []
+            act = {"in": False, "last": 0}  # recovery activity on the step clock
             if isinstance(rec, peers.RecoveryPeer):
                 rec.begin(job["peer_seed"])
                 last_err = []
@@ -197,7 +198,9 @@ def child_parses(spec, jobs):
                 def rec(head, error, default, _inner=inner, _le=last_err):  # noqa: F811
                     pos0 = head.position
                     _le[:] = [error]
+                    act["in"], act["last"] = True, clock.ticks
                     r = _inner(head, error, default)
+                    act["in"] = False
                     if head.position < pos0:
                         raise AssertionError("peer moved backwards")
                     events.setdefault(len(holder[0].errors) - 1, []).append(
@@ -210,7 +213,9 @@ def child_parses(spec, jobs):
 
                 def default_wrapper(head, _orig=orig_default):
                     pos0 = head.position
+                    act["in"], act["last"] = True, clock.ticks
                     r = _orig(head)
+                    act["in"] = False
                     events.setdefault(len(holder[0].errors) - 1, []).append(
                         (pos0, head.position, bool(r)))
                     return r
@@ -223,10 +228,22 @@ def child_parses(spec, jobs):
             try:
                 res = p.parse(text)
             except StepBudgetExceeded:
-                rep["probs"].append(f"no termination within step budget {budget} (T0={t0})")
-                rep["class"] = "livelock"
-                rep["ticks"] = clock.ticks
+                ticks = clock.ticks
                 clock.reset()
+                if not act["in"] and act["last"] < budget // 2:
+                    # The driver loops without entering recovery any more (no
+                    # new error for half the budget): e.g. an endless chain of
+                    # empty reductions of an LR table whose conflicts were
+                    # resolved by prefer_shifts.  The same parser WITHOUT
+                    # recovery loops on other inputs too; not a recovery
+                    # livelock, outside C11.
+                    reports.append({"skip": "driver_loop_outside_recovery"})
+                    continue
+                rep["probs"].append(f"no termination within step budget {budget} (T0={t0}); "
+                                    f"last recovery activity at tick {act['last']}, "
+                                    f"inside recovery call: {act['in']}")
+                rep["class"] = "livelock"
+                rep["ticks"] = ticks
                 reports.append(rep)
                 continue
             except Exception as e:
